@@ -282,6 +282,33 @@ ScriptOf(m) == [w |-> m.what,
                            [op |-> "Add", n |-> m.fields[i].name, t |-> m.fields[i].type,
                             v |-> IF Kind(m.fields[i].type) = "message" THEN ScriptOf(m.fields[i].items[j]) ELSE m.fields[i].items[j]]]])]
 
+(* Scripts that leave the same Message but are NOT append-only (C08 builds its C++ Messages through them, so that   *)
+(* the serialiser is also seen on item arrays whose storage has been rotated, shrunk, overwritten or regrown):     *)
+(*  d = 1  Add items 2..n, then Prepend item 1                 (prepend onto 1+ items)                             *)
+(*  d = 2  Add 3 x item 1, Add items 1..k, RemoveData(0) x 3, Add items k+1..n   (first in, first out)             *)
+(*  d = 3  Add n-1 x item 1, Replace(j) every item but the last, Replace(okayToAdd, n-1) appends the last          *)
+(*  d = 4  Add item 1 and 2 x item 1, RemoveData(2), RemoveData(1) (down to one item), Add items 2..n              *)
+(*  d = 5  Prepend items n..1                                                                                       *)
+(*  other  Add items 1..n (as ScriptOf)                                                                             *)
+(* The fields are built one after the other, and no field is ever emptied on the way, so the field order is kept.  *)
+(* Sub-Messages are built by the same detour.  WireVec / WireTrace check Build(DetourOf(m, d)) = m.                 *)
+RECURSIVE DetourOf(_, _)
+FieldDetour(f, d) ==
+   LET n == Len(f.items)
+       k == (n + 1) \div 2
+       val(j) == IF Kind(f.type) = "message" THEN DetourOf(f.items[j], d) ELSE f.items[j]
+       add(j) == [op |-> "Add", n |-> f.name, t |-> f.type, v |-> val(j)]
+       pre(j) == [op |-> "Prepend", n |-> f.name, t |-> f.type, v |-> val(j)]
+       rem(i) == [op |-> "Remove", n |-> f.name, i |-> i]
+       rep(i, j, a) == [op |-> "Replace", n |-> f.name, t |-> f.type, v |-> val(j), i |-> i, a |-> a]
+   IN CASE d = 1 -> [j \in 1..(n - 1) |-> add(j + 1)] \o <<pre(1)>>
+        [] d = 2 -> <<add(1), add(1), add(1)>> \o [j \in 1..k |-> add(j)] \o <<rem(0), rem(0), rem(0)>> \o [j \in 1..(n - k) |-> add(k + j)]
+        [] d = 3 -> [j \in 1..(n - 1) |-> add(1)] \o [j \in 1..(n - 1) |-> rep(j - 1, j, FALSE)] \o <<rep(n - 1, n, TRUE)>>
+        [] d = 4 -> <<add(1), add(1), add(1), rem(2), rem(1)>> \o [j \in 1..(n - 1) |-> add(j + 1)]
+        [] d = 5 -> [j \in 1..n |-> pre(n + 1 - j)]
+        [] OTHER -> [j \in 1..n |-> add(j)]
+DetourOf(m, d) == [w |-> m.what, s |-> CatAll([i \in 1..Len(m.fields) |-> FieldDetour(m.fields[i], d)])]
+
 ----------------------------------------------------------------------------
 (* The repertoire common to C++ and another shipped implementation (C08).                                   *)
 (*  mini, micro : everything the C++ class can put on the wire (names and strings are C strings in all      *)
